@@ -28,4 +28,6 @@ for d in sorted(glob.glob(V + "/seeded/*/")):
         subprocess.run(["/venv/bin/python", "-c", "from harness import generate; generate.run(sorted(generate.GENERATORS))"], cwd=V)
     res[sid] = out
     print(sid, out, flush=True)
+# evidence files written while a seeded change was applied do not describe the unchanged tree: restore the committed ones
+subprocess.run(["git", "-C", V, "checkout", "--", "evidence"], check=False)
 json.dump(res, open(V + "/out/seed_results.json", "w"), indent=1)
